@@ -13,7 +13,11 @@ How the tokens map to LTS actions (Model/C17.lean):
          channels.Submit(traversalCtx,segmentWriterC) }  WAct.submit / submitDrop  WState.incd → sub
   descentCount.Add(-1)                            WAct.dec                       WState.sub [] → decd
   channels.Submit(traversalCtx,completionC)       WAct.compl / complCancel       WState.decd → idle
-  errors.Is(…) cond → doneFunc(); errorCollector.Add   WAct.fail (or failSilent when the cond is false)
+  cond(err != nil) → fatal := traversalCtx.Err()==nil || !ctx-class; doneFunc(); if fatal { errorCollector.Add }
+                                                  WAct.fail (non ctx-class: always fatal) / WAct.failSilent
+                                                  (ctx-class: cancels always, recorded iff the context was live)
+  The shape BEFORE the repair (doneFunc() only under `!errors.Is(...)` filters; finding F14) is rejected
+  by `skeleton_breadthFirst` and `order_error_path`.
   descentCount.Add(1); Submit(root)               Act.cInc, cSubmitRoot / cSubmitRootCancel
   for{ Receive(completionC); Load()==0 → break }  Act.cRecv / cRecvCancel, cLoad
   doneFunc(); workerWG.Wait()                     Act.cCancel, cReturn
@@ -105,12 +109,19 @@ def expected_breadthFirst : List String := [
   "}",
   "}",
   "}",
+  "cond(err != nil)",
+  "then{",
+  "traversalCtx.Err()",
   "errors.Is(err,graph.ErrContextTimedOut)",
   "errors.Is(err,context.Canceled)",
-  "cond(err != nil && !errors.Is(err, graph.ErrContextTimedOut) && !errors.Is(err, context.Canceled))",
-  "then{",
+  "assign(fatal=traversalCtx.Err() == nil || (!errors.Is(err, graph.ErrContextTimedOut) && !errors.Is(err, context.Canceled)))",
   "doneFunc()",
+  "if{",
+  "cond(fatal)",
+  "then{",
   "errorCollector.Add(fmt.Errorf(...))",
+  "}",
+  "}",
   "}",
   "}",
   "}",
@@ -258,9 +269,9 @@ def lastIdxOf (t : String) (l : List String) : Option Nat :=
 
 def count (t : String) (l : List String) : Nat := l.countP (· == t)
 
-/-- the worker's transaction body: from the ReadTransaction call to the error handling -/
+/-- the worker's transaction body: from the ReadTransaction call to the test of its result -/
 def workerBody (l : List String) : List String :=
-  match idxOf "s.db.ReadTransaction(ctx)" l, idxOf "errors.Is(err,graph.ErrContextTimedOut)" l with
+  match idxOf "s.db.ReadTransaction(ctx)" l, lastIdxOf "cond(err != nil)" l with
   | some a, some b => (l.take b).drop a
   | _, _ => []
 
@@ -305,12 +316,15 @@ def coordinatorOrder (l : List String) : Bool :=
   | some a, some s, some r, some ld, some dn, some wt => a < s && s < r && r < ld && ld < dn && dn < wt
   | _, _, _, _, _, _ => false
 
-/-- worker error path: `doneFunc()` before `errorCollector.Add`, guarded by the two `errors.Is` tests -/
+/-- worker error path (repaired shape): the branch is taken on EVERY error (`cond(err != nil)` alone),
+`doneFunc()` is unconditional in it, the `fatal` decision reads the traversal context BEFORE the
+cancellation and only gates `errorCollector.Add` -/
 def errorPath (l : List String) : Bool :=
-  match idxOf "errors.Is(err,context.Canceled)" l with
-  | some i => (l.drop (i + 1)).take 4 ==
-      ["cond(err != nil && !errors.Is(err, graph.ErrContextTimedOut) && !errors.Is(err, context.Canceled))",
-       "then{", "doneFunc()", "errorCollector.Add(fmt.Errorf(...))"]
+  match lastIdxOf "cond(err != nil)" l with
+  | some i => (l.drop (i + 1)).take 12 ==
+      ["then{", "traversalCtx.Err()", "errors.Is(err,graph.ErrContextTimedOut)", "errors.Is(err,context.Canceled)",
+       "assign(fatal=traversalCtx.Err() == nil || (!errors.Is(err, graph.ErrContextTimedOut) && !errors.Is(err, context.Canceled)))",
+       "doneFunc()", "if{", "cond(fatal)", "then{", "errorCollector.Add(fmt.Errorf(...))", "}", "}"]
   | none => false
 
 /-- pipe: `defer close(readerC)`; the send case goes through the nil-channel guard `getReaderC()`;
